@@ -59,7 +59,15 @@ func ruleGRDstats(w *World, r *Report) {
 					if as, ok := x.Init.(*ast.AssignStmt); ok && len(as.Rhs) == 1 {
 						if ix, ok := as.Rhs[0].(*ast.IndexExpr); ok {
 							if sel, ok := ix.X.(*ast.SelectorExpr); ok && sel.Sel.Name == "DocLengths" {
-								hadGuards = append(hadGuards, x)
+								// "was counted" = the entry EXISTS (comma-ok form, condition is the ok variable); a test
+								// on the stored length treats a counted document of length 0 as never counted
+								if len(as.Lhs) == 2 {
+									if okId, isId := as.Lhs[1].(*ast.Ident); isId {
+										if c, isC := x.Cond.(*ast.Ident); isC && c.Name == okId.Name {
+											hadGuards = append(hadGuards, x)
+										}
+									}
+								}
 							}
 						}
 					}
@@ -123,7 +131,7 @@ func ruleGRDstats(w *World, r *Report) {
 		}
 		if u.delsDocLen {
 			r.Cond(u.totalDocs && u.totalLen && u.avgLen, "GRD-stats", name+":delete-keeps-totals", w.Pos(u.pos), "removal adjusts all four statistics", name+" forgets a document length without adjusting the totals")
-			r.Cond(u.decGuardedByHad, "GRD-stats", name+":delete-only-if-counted", w.Pos(u.pos), "TotalDocs is decremented only for a node that was counted", name+" decrements TotalDocs for nodes that were never counted (no DocLengths entry): the corpus size drifts below the real one")
+			r.Cond(u.decGuardedByHad, "GRD-stats", name+":delete-only-if-counted", w.Pos(u.pos), "TotalDocs is decremented only for a node that was counted", name+" does not decide \"was this node counted\" by the presence of its DocLengths entry (comma-ok lookup): either it decrements TotalDocs for nodes that were never counted, or — testing the stored length — it keeps counting deleted documents whose text analysed to zero tokens; N and the average length drift and BM25 order changes")
 		}
 		if u.removesPostingsOfNode {
 			r.Cond(u.delsDocLen, "GRD-stats", name+":postings-removal-removes-stats", w.Pos(u.pos), "stripping a node's postings also removes its statistics",
@@ -485,4 +493,142 @@ func ruleGRDreinforce(w *World, r *Report) {
 	})
 	r.Cond(plusOne, "GRD-reinforce", "VReinforce:count+1", w.Pos(fi.Decl.Pos()), "_access_count = previous + 1", "VReinforce no longer stores previous count + 1 into _access_count")
 	r.Cond(now, "GRD-reinforce", "VReinforce:last-accessed=now", w.Pos(fi.Decl.Pos()), "_last_accessed = now", "VReinforce no longer moves _last_accessed to the current time")
+}
+
+// ruleGRDdecayall: every fused candidate is decayed, not only those of one search leg.
+func ruleGRDdecayall(w *World, r *Report) {
+	r.Doc("GRD-decayall", "in searchWithFusion the loop that applies the time-decay factor ranges over the very map it writes the decayed score into (the fused scores, which the final ranking reads): a candidate contributed only by the text leg is decayed like one found by the vector leg", 1)
+	fi := w.Func("pkg/engine", "Engine.searchWithFusion")
+	if fi == nil {
+		r.Und("GRD-decayall", "anchor:Engine.searchWithFusion", "", "anchor lost")
+		return
+	}
+	fn := w.SSAFunc(fi.Obj)
+	n := 0
+	for _, in := range findInstrs(fn, func(in ssa.Instruction) bool { return isModCall(in, "pkg/engine", "calculateTimeDecayModel") }) {
+		c := in.(*ssa.Call)
+		// the store of the decayed score: a MapUpdate whose value is a product involving the factor
+		for _, b := range fn.Blocks {
+			for _, x := range b.Instrs {
+				mu, ok := x.(*ssa.MapUpdate)
+				if !ok {
+					continue
+				}
+				bo, ok := mu.Value.(*ssa.BinOp)
+				if !ok || bo.Op != token.MUL || !(phiReaches(bo.X, c) || phiReaches(bo.Y, c) || bo.X == ssa.Value(c) || bo.Y == ssa.Value(c)) {
+					continue
+				}
+				n++
+				// the enclosing loop ranges over mu.Map: the key comes out of a Next on a Range over that map
+				okRange := false
+				for _, leaf := range phiLeaves(mu.Key) {
+					if ex, ok := leaf.(*ssa.Extract); ok {
+						if nx, ok := ex.Tuple.(*ssa.Next); ok {
+							if rg, ok := nx.Iter.(*ssa.Range); ok && rg.X == mu.Map {
+								okRange = true
+							}
+						}
+					}
+				}
+				r.Cond(okRange, "GRD-decayall", fmt.Sprintf("searchWithFusion:decay-store#%d", n), w.Pos(mu.Pos()), "the decayed score is written for a key taken from iterating the fused-score map itself", "searchWithFusion applies the decay factor while walking something other than the fused-score map (one leg's result list): memories that enter the fusion only through the other leg keep factor 1 whatever their age — an old keyword match outranks its fresh twin")
+			}
+		}
+	}
+	if n == 0 {
+		r.Und("GRD-decayall", "anchor:searchWithFusion:decay-store", w.Pos(fi.Decl.Pos()), "no store of score×factor into a map found after calculateTimeDecayModel")
+	}
+}
+
+// ruleSIBmetatypes: system metadata keys are written with the dynamic type their readers assert.
+func ruleSIBmetatypes(w *World, r *Report) {
+	r.Doc("SIB-metatypes", "every system metadata key (\"_…\") that some engine code reads with a single-type assertion (v.(float64)) is written, wherever the engine writes it, with exactly that dynamic type: in memory the value keeps the Go type it was stored with (only a restart turns numbers into float64), so an int written where float64 is asserted is silently read as absent", 2)
+	type rd struct {
+		t   types.Type
+		pos token.Pos
+		fn  string
+	}
+	readers := map[string][]rd{}
+	type wr struct {
+		t   types.Type
+		pos token.Pos
+		fn  string
+	}
+	writers := map[string][]wr{}
+	for _, fi := range w.ModuleFuncs() {
+		if relPkg(fi.Obj) != "pkg/engine" {
+			continue
+		}
+		root := w.SSAFunc(fi.Obj)
+		if root == nil {
+			continue
+		}
+		for _, fn := range append([]*ssa.Function{root}, closuresOf(root)...) {
+			for _, b := range fn.Blocks {
+				for _, in := range b.Instrs {
+					switch x := in.(type) {
+					case *ssa.TypeAssert:
+						lk, ok := x.X.(*ssa.Lookup)
+						if !ok {
+							if ex, ok2 := x.X.(*ssa.Extract); ok2 {
+								lk, ok = ex.Tuple.(*ssa.Lookup)
+							}
+						}
+						if !ok || lk == nil {
+							continue
+						}
+						k, isC := constString(lk.Index)
+						if !isC || !strings.HasPrefix(k, "_") {
+							continue
+						}
+						if _, isIface := x.AssertedType.Underlying().(*types.Interface); isIface {
+							continue
+						}
+						// a type switch asserts several types on the same value: tolerant reader
+						multi := 0
+						if x.X.Referrers() != nil {
+							for _, ref := range *x.X.Referrers() {
+								if _, ok := ref.(*ssa.TypeAssert); ok {
+									multi++
+								}
+							}
+						}
+						if multi > 1 {
+							continue
+						}
+						readers[k] = append(readers[k], rd{x.AssertedType, x.Pos(), shortName(fi.Obj)})
+					case *ssa.MapUpdate:
+						k, isC := constString(x.Key)
+						if !isC || !strings.HasPrefix(k, "_") {
+							continue
+						}
+						if mi, ok := x.Value.(*ssa.MakeInterface); ok {
+							writers[k] = append(writers[k], wr{mi.X.Type(), x.Pos(), shortName(fi.Obj)})
+						}
+					}
+				}
+			}
+		}
+	}
+	n := 0
+	var keys []string
+	for k := range readers {
+		keys = append(keys, k)
+	}
+	sort.Strings(keys)
+	for _, k := range keys {
+		for wi, wv := range writers[k] {
+			n++
+			bad := ""
+			for _, rv := range readers[k] {
+				if !types.Identical(rv.t, wv.t) {
+					bad = fmt.Sprintf("%s asserts %s", rv.fn, rv.t)
+				}
+			}
+			r.Cond(bad == "", "SIB-metatypes", fmt.Sprintf("key:%s:writer#%d:%s", k, wi+1, wv.fn), w.Pos(wv.pos), fmt.Sprintf("written as %s, which every single-type reader asserts", wv.t), fmt.Sprintf("%s stores %q as %s but %s: for values written by the running process the assertion fails silently and the reader falls back to its default (for _access_count: zero reinforcements — a memory reinforced six times decays like one never accessed) until a restart re-types the number", wv.fn, k, wv.t, bad))
+		}
+	}
+	r.Count("typed_system_key_writes", n)
+	if n < 2 {
+		r.Und("SIB-metatypes", "anchor:system-key-writes", "", fmt.Sprintf("expected ≥2 writes of system keys that are read with a type assertion, found %d", n))
+	}
 }
